@@ -14,6 +14,7 @@ From Coq Require Import PrimFloat.
 From Coq Require Import ZArith List Bool Reals Lra Permutation.
 From Coquelicot Require Import Coquelicot.
 From BZ Require Import Base.Ops Gen.Point Gen.BBox Hand.Sweep Proofs.C19 Proofs.C19float Base.FloatCmp.
+From BZ Require Gen.Sample Gen.Sweep Proofs.Bridge3.
 Import ListNotations.
 Open Scope R_scope.
 
@@ -107,6 +108,11 @@ Proof. exact overlaps_nan_true_computed. Qed.
 Theorem C19_sweep_float_example_thm :
   Permutation (map as_ab (bbox_intersections FOps exAF exBF)) (all_overlapping_pairsF exAF exBF).
 Proof. exact sweep_float_example_thm. Qed.
+(* the sweep of the hand model IS the one regenerated from utils/linesweep.py (closures, sorted(key=...), deques; Proofs/Bridge3.v): the regenerated
+   function never raises and reports the same index pairs in the same order, for every scalar carrier *)
+Theorem C19_sweep_is_generated :
+  forall (T : Type) (O : Ops T) (A B : list (bbox T)), exists r, Gen.Sweep.linesweep_bbox_intersections O (Bridge3.index_shapes A) (Bridge3.index_shapes B) = Gen.Sample.Returns r /\ map (fun p : Gen.Sweep.shape T * Gen.Sweep.shape T => (fst (fst p), fst (snd p))) r = map (fun q : bool * nat * nat => (snd (fst q), snd q)) (bbox_intersections O A B).
+Proof. exact @Bridge3.bbox_intersections_gen_hand. Qed.
 
 Print Assumptions C19_includes_iff.
 Print Assumptions C19_overlaps_iff.
@@ -138,3 +144,4 @@ Print Assumptions C19_sweep_float_eq_all_pairs_iff.
 Print Assumptions C19_includes_needs_finite.
 Print Assumptions C19_overlaps_nan_true_computed.
 Print Assumptions C19_sweep_float_example_thm.
+Print Assumptions C19_sweep_is_generated.
